@@ -504,7 +504,7 @@ func (ex *Explorer) Run(res *JobResult, resetAndRun func() (outcome string)) {
 		if !ex.pathInc && outcome != "dropped" {
 			res.Completed++
 		}
-		if ex.SampleEvery > 0 && (ex.pathIdx%ex.SampleEvery == 0) && len(res.Samples) < 64 && outcome != "dropped" && !ex.pathInc {
+		if ex.SampleEvery > 0 && (ex.pathIdx%ex.SampleEvery == 0) && len(res.Samples) < 64 && outcome != "dropped" && !ex.pathInc && ex.cexOnPath == 0 {
 			if m := ex.model(); m != nil {
 				res.Samples = append(res.Samples, Sample{Path: ex.pathIdx, Decisions: len(ex.trace), Model: m, Outcome: outcome, Notes: ex.notes})
 			}
